@@ -571,16 +571,20 @@ def rule_sweep_init(ctx):
     stores = [st for st in walk_no_nested(fx.node) if isinstance(st, ast.Assign)
               and any(isinstance(t, ast.Attribute) and t.attr == 'xbar' for t in st.targets)]
     eff = ctx.effects
+    sm = eff.sums[fx]
     for st in stores:
         v = st.value
         txt = norm(v)
-        fresh_ok = (isinstance(v, ast.Constant) or txt.endswith('.zeros_like()') or txt == 'tuple(tmp)'
-                    or txt == 'self.func(*args)')
-        if fresh_ok:
-            r.ok(construct='xbar=' + txt, sample='self.xbar = %s (fresh or view of the parents\' fresh adjoints)' % txt)
+        av = sm.assign_avs.get(id(st))
+        roots = flat(av) if av is not None else None
+        is_view_of_parents = isinstance(v, ast.Call) and norm(v.func) == 'self.func'
+        if roots is not None and not any(x[0] == 'p' for x in roots):
+            r.ok(construct='xbar=' + txt, sample='self.xbar = %s (fresh allocation: roots %s)' % (txt, sorted(roots)))
+        elif is_view_of_parents:
+            r.ok(construct='xbar=' + txt, sample='self.xbar = %s (the view op applied to the parents\' fresh adjoints)' % txt)
         else:
             r.bad(Finding('R-sweep-init', _f(fx), 'xbar=' + txt,
-                          'xbar_from_x assigns self.xbar from `%s`, which is not a fresh allocation' % txt, fx.file, st.lineno))
+                          'xbar_from_x assigns self.xbar from `%s`, which is not a fresh allocation (roots %s)' % (txt, sorted(roots or [])), fx.file, st.lineno))
     if len(stores) < 4:
         r.unknown(fx.site(), 'fewer than 4 assignments to self.xbar in xbar_from_x')
     r.floor = 8
